@@ -683,3 +683,11 @@ func CmpOrient(v ssa.Value, isX func(ssa.Value) bool) (op token.Token, x, y ssa.
 
 // IsLen reports whether v is len(·) of something (conversions stripped).
 func IsLen(v ssa.Value) bool { _, ok := LenOf(v); return ok }
+
+// PkgPathOf: the import path of the package a function belongs to ("" for synthetic ones).
+func PkgPathOf(f *ssa.Function) string {
+	if f == nil || f.Pkg == nil || f.Pkg.Pkg == nil {
+		return ""
+	}
+	return f.Pkg.Pkg.Path()
+}
